@@ -94,6 +94,37 @@ inline VbkBlock mineVbk(RealWorld& w, uint8_t prevId) {
   w.vbkById[id] = b;
   return b;
 }
+// mines BTC block number `id` on top of miner block `prevId` (hash preset; display order: last byte = id)
+inline BtcBlock mineBtc(RealWorld& w, uint8_t prevId) {
+  auto* tip = w.mbtc->getBlockIndex(w.btcById[prevId].getHash());
+  VBK_ASSERT(tip != nullptr);
+  Miner<BtcBlock, BtcChainParams> m(w.bp);
+  BtcBlock b = m.getBlockTemplate(*tip, uint256());
+  uint8_t id = w.nextBtc++;
+  b.nonce = id;
+  b.timestamp = tip->getTimestamp() + 1;
+  b.bits = getNextWorkRequired(*tip, b, static_cast<const BtcChainParams&>(w.bp));
+  for (int i = 0; i < 32; i++) ((uint8_t*)b.hash_.data())[i] = 0;
+  ((uint8_t*)b.hash_.data())[31] = id;
+  ((uint8_t*)b.hash_.data())[30] = 0x77;   // never collides with the real regtest genesis hash
+  ValidationState st;
+  bool ok = w.mbtc->acceptBlockHeader(b, st);
+  VBK_ASSERT(ok);
+  w.btcById[id] = b;
+  return b;
+}
+// a VTB: VBK block `endorsed` published in BTC block `bop` (with BTC context blocks ctxLo..bop-1), contained in VBK block `containing`
+inline VTB makeVTB(RealWorld& w, uint8_t endorsed, uint8_t containing, uint8_t bop, uint8_t ctxLo, uint8_t salt) {
+  VTB v;
+  v.transaction.publishedBlock = w.vbkById[endorsed];
+  v.transaction.blockOfProof = w.btcById[bop];
+  for (uint8_t c = ctxLo; c && c < bop; c++) v.transaction.blockOfProofContext.push_back(w.btcById[c]);
+  v.transaction.bitcoinTransaction.tx = std::vector<uint8_t>(4, salt);
+  v.transaction.signature = std::vector<uint8_t>(8, salt);
+  v.transaction.publicKey = std::vector<uint8_t>(8, 9);
+  v.containingBlock = w.vbkById[containing];
+  return v;
+}
 inline AltBlock addAltHeader(RealWorld& w, uint8_t id, uint8_t prev) {
   AltBlock b = mkAlt(id, prev, w.height[prev] + 1);
   ValidationState st;
